@@ -4,6 +4,7 @@
   the per-task sentinel types of cff.Invoke and cff.Predicate are encoded as 1000+k and 2000+k.
 -/
 import CffVerif.Gen.Spec
+import CffVerif.Gen.Sig
 
 namespace Gen
 
@@ -127,7 +128,11 @@ def validatePar (p : Prog) : List String :=
     boolean type or two results, a variadic predicate, a FallbackWith of the wrong arity).  The
     harness marks such programs with a `sig-*` quirk. -/
 def sigDiags (p : Prog) : List String :=
-  if p.quirk == "sig-fbarity" then ["fallback"]
+  if p.quirk == "sig-shape" then
+    -- the function of one task has the given parameter/result kinds: refused unless `classifySig` accepts
+    let (variadic, ps) := parsePK p.sigP
+    if (classifySig variadic ps (parseRK p.sigR)).isSome then [] else ["other"]
+  else if p.quirk == "sig-fbarity" then ["fallback"]
   else if p.quirk.startsWith "sig-" then ["other"] else []
 
 def validate (p : Prog) : List String :=
